@@ -108,7 +108,44 @@ def r3_backend(run, F):
             srcs.append("default")
         else:
             srcs.append("flag" if n == "map" else "?")
-    run.ob("R3-BACKEND-ORDER", "get_backend", ok and srcs == ["flag", "env", "config", "default"], F.where(b),
+    chain_ok = ok and srcs == ["flag", "env", "config", "default"]
+    if not chain_ok and b["hir"].get("k") == "Block" and b["hir"].get("stmts"):
+        # early-return form: one statement per source, in order of precedence; the first three return when their source is present
+        def source_of(node):
+            cs = [hirq.callee(x) or "" for x in hirq.calls(node)]
+            loc = [x.get("res") for x in walk(node) if x.get("k") == "Path" and x.get("rk") == "Local"]
+            out = []
+            if "arg_backend" in loc:
+                out.append("flag")
+            if any(c == "std::env::var" for c in cs):
+                out.append("env")
+            if "config_backend" in loc:
+                out.append("config")
+            if "default" in loc:
+                out.append("default")
+            return out
+
+        def returns_when_present(st, src):
+            st = hirq.unwrap_trivial(st.get("e", st)) if st.get("k") in ("Semi", "Expr") else st
+            if st.get("k") == "If":
+                cond = hirq.unwrap_trivial(st["cond"])
+                some = cond.get("k") == "LetExpr" and hirq.pat_key(cond["pat"]).endswith("Some")
+                return some and any(x.get("k") == "Ret" for x in walk(st["then"])) and not any(x.get("k") == "Ret" for x in walk(st.get("else") or {}))
+            if st.get("k") == "Match":
+                res = {}
+                for a in st["arms"]:
+                    for alt in hirq.pat_alts(a["pat"]):
+                        key = hirq.pat_key(alt)
+                        res["Ok" if key.endswith("Ok") else "NotPresent" if "NotPresent" in json_dumps(alt) else "Err"] = any(x.get("k") == "Ret" for x in walk(a["body"]))
+                return res.get("Ok") is True and res.get("NotPresent") is False
+            return False
+        import json as _json
+        json_dumps = _json.dumps
+        seq = list(b["hir"]["stmts"]) + ([b["hir"]["e"]] if b["hir"].get("e") is not None else [])
+        srcs = [source_of(x) for x in seq]
+        names = ["early-return"]
+        chain_ok = srcs == [["flag"], ["env"], ["config"], ["default"]] and all(returns_when_present(seq[i], srcs[i][0]) for i in range(3))
+    run.ob("R3-BACKEND-ORDER", "get_backend", chain_ok, F.where(b),
            "backend = flag, else environment variable, else config file, else default: chain %s sources %s" % (names, srcs), sample={"chain": names, "sources": srcs})
     tf = [x for p, x in F.bin.bodies.items() if p.endswith("TryFrom<Cli>>::try_from") or (p.endswith("::try_from") and "MainArgs" in p)]
     run.require(tf, "MainArgs::try_from not found")
